@@ -226,7 +226,7 @@ func RunCheck(o CheckOpts) int {
 	var ledger Ledger
 	_ = loadJSON(filepath.Join(verifDir, "obligations.lock.json"), &ledger)
 
-	timeout := 10
+	timeout := 20
 	thorough := o.Tier == "thorough"
 	if thorough {
 		timeout = 60
